@@ -26,11 +26,17 @@ def gen_scenario(R):
     close = R.random() < 0.3
     if close:
         lines.append("0|CLOSE%s\r\n" % R.choice(["", "|S|reason|S|shutdown"]))
-    mode = R.choice(["line", "all", "merge"])
+    mode = R.choice(["line", "all", "merge", "split", "split"])
     if mode == "line":
         chunks = lines
     elif mode == "all":
         chunks = ["".join(lines)]
+    elif mode == "split":
+        # reads cut anywhere, often several times inside one line (a request delivered in three or more reads)
+        stream = "".join(lines)
+        k = min(len(stream) - 1, R.choice([2, 3, 5, 9, 14]))
+        cuts = sorted(R.sample(range(1, len(stream)), k)) if k > 0 else []
+        chunks = [stream[a:b] for a, b in zip([0] + cuts, cuts + [len(stream)])]
     else:
         chunks, i = [], 0
         while i < len(lines):
@@ -99,8 +105,9 @@ def run_real(scn, choose):
                 root = sched.threads[root.meta["submitter"]]
             k = None
             if root.kind == "task":
-                by_reader = [t.name for t in sched.threads.values() if t.kind == "task" and t.meta.get("submitter") == "R"]
-                k = by_reader.index(root.name) if root.name in by_reader else None
+                rid = root.meta.get("rid")
+                ids = [r["id"] for r in scn["requests"]]
+                k = ids.index(rid) if rid in ids else None
             script = scn["requests"][k]["script"] if k is not None and k < len(scn["requests"]) else []
             i = cursor.get(root.name, 0)
             cursor[root.name] = i + 1
@@ -118,7 +125,7 @@ def run_real(scn, choose):
             return o[1]
         return f
     body = {n: mk(n) for n in ADAPTER_METHODS}
-    body["initialize"] = lambda self, p, c: sched.event("adapter-sync", "initialize")
+    body["initialize"] = lambda self, p, c=None: sched.event("adapter-sync", "initialize")
     adapter = type("CoMeta", (MetadataProvider,), body)()
 
     class H(S.ExceptionHandler):
@@ -129,6 +136,17 @@ def run_real(scn, choose):
             sched.event("iohandler", sched.me().name, type(e).__name__)
             return scn["handler"]
     srv = S.MetadataProviderServer(adapter, ("proxy", 6663), keep_alive=0, thread_pool_size=scn["pool_arg"])
+    # which request a pool task works for: the id of the request line being handled when the reader submitted it
+    orig_handle = srv._handle_request
+
+    def handle_request(request_id, data, method_name):
+        try:
+            return orig_handle(request_id, data, method_name)
+        finally:
+            for t in sched.threads.values():
+                if t.kind == "task" and t.meta.get("submitter") == "R" and "rid" not in t.meta:
+                    t.meta["rid"] = request_id
+    srv._handle_request = handle_request
     if scn["handler"] != "absent":
         srv.set_exception_handler(H())
     run.srv = srv
@@ -179,6 +197,7 @@ def run_real(scn, choose):
         run.sent = list(sock.sent)
         run.errors = [(t.name, repr(t.error)) for t in sched.threads.values() if t.error is not None]
         run.pool_size = srv._executor._max_workers
+        run.task_of = {t.meta["rid"]: t.name for t in sched.threads.values() if t.kind == "task" and "rid" in t.meta}
         # who is still alive, and which pool tasks ran to completion, BEFORE the scenario is torn down
         run.alive = {t.name: t.op for t in sched.threads.values() if not t.done}
         run.tasks_unfinished = [t.name for t in sched.threads.values() if t.kind == "task" and not (t.started and t.done)]
@@ -289,7 +308,7 @@ def oracle_c04(run, A, V):
         return            # the connection fails: requests may never arrive / the process may exit (C20's business)
     scn = run.scn
     for k, r in enumerate(scn["requests"]):
-        tid = "T%d" % (k + 1)
+        tid = run.task_of.get(r["id"], "<no task>")
         reps = [l for l in A.lines if l.startswith("%s|%s" % (r["id"], r["method"])) and (len(l) == len(r["id"]) + 4 or l[len(r["id"]) + 4] == "|")]
         hs = [h for h in A.handler if h[1] == tid]
         calls = [c for c in A.calls if c["tid"] == tid]
